@@ -321,7 +321,23 @@ def gen_history(rng, regs, n, scopes, depth=0, w=None, next_obj=None):
       b = gen_bind_attempt(rng, regs, scopes)
       if b['_pclass'] != 'valid' and rng.random() < 0.6:
         b = gen_bind_attempt(rng, regs, scopes)
+      if w.get('special') and rng.random() < w['special']:
+        # values the built-in finalize hooks look at: a parameter left at %gin.REQUIRED, a macro
+        # (bound or not), a reference to a configurable
+        rr = rng.random()
+        if rr < 0.4:
+          b['val'] = {'const': 'gin.REQUIRED'}
+        elif rr < 0.7:
+          b['val'] = {'macro': rng.choice(['m1', 'm2'])}
+        else:
+          b['val'] = {'ref': [[], rng.choice(regs)['_selector'], False]}
+        if b['_form'] not in ('text', 'block'):
+          b['_form'] = 'text'
+          b['block'] = False
       ops.append(b)
+      if w.get('special') and rng.random() < 0.15:
+        ops.append({'op': 'bind', 'scope': rng.choice(['m1', 'm2']), 'sel': 'gin.macro', 'arg': 'value',
+                    'val': rng.randint(1, 9), '_form': 'macro_text', 'block': False})
     elif r < 0.42:
       ops.append({'op': 'finalize'})
     elif r < 0.56 and depth < 2:
